@@ -340,6 +340,10 @@ def q_c10_bob_steps(bodies):
                     outcome = ("ok", ns)
                     break
             got_procs = [tuple(p) for p in procs]
+            if rejected and env.get("__pos", 0) != 1:
+                problems.append(("a declined request ends the session at once: no further frame is awaited after the request was declined (the acceptor's end must not depend on the peer closing its stream)", "sat",
+                                 tag + " frames awaited=%d" % env.get("__pos", 0)))
+                continue
             if rejected and got_procs:
                 problems.append(("a declined request changes nothing in the store: no message of a declined session is processed", "sat", tag + " processed=%d" % len(got_procs)))
                 continue
